@@ -347,7 +347,22 @@ def part_lit(ctx, model_ok):
     from vyper.venom.basicblock import IRLiteral
     n_rewritten = {"not": 0, "shl": 0}
     for text, chunk in zip(lit_texts(lits), [lits[i:i + 40] for i in range(0, len(lits), 40)]):
-        s = real_pair(text, "ReduceLiteralsCodesize")
+        try:
+            s = real_pair(text, "ReduceLiteralsCodesize")
+        except Exception as ex:  # noqa  -- the pass itself raises: find the literal
+            for v in chunk:
+                t1 = f"function l {{\nl:\n    %v = {v}\n    mstore 0, %v\n    stop\n}}\n"
+                try:
+                    real_pair(t1, "ReduceLiteralsCodesize")
+                except Exception as ex1:  # noqa
+                    if not found:
+                        found = True
+                        ctx.violation("failing-input", f"ReduceLiteralsCodesize raises {type(ex1).__name__} on a literal (compiler crash)",
+                                      {"venom": t1, "literal": hex(v % W), "exception": repr(ex1)[:300],
+                                       "call": "ReduceLiteralsCodesize(IRAnalysesCache(fn), fn).run_pass() on parse_venom(venom)",
+                                       "oracle": "a pass must not raise on well-formed IR"}, key=f"literals_codesize:raise:{v % W:#x}")
+                    break
+            continue
         samples.append(s)
         from vyper.venom.parser import parse_venom
         fn = list(parse_venom(text).functions.values())[0]
@@ -956,8 +971,8 @@ def part_corpus(ctx, model_ok):
                     else:
                         st["rejected"] += 1
                         if st["rejected"] <= 2:
-                            thm = {"lit": "lit_pass_correct", "rta": "rta_pass_correct", "ac": "ac_pass_correct"}[kind]
-                            ctx.violation("theorem-broken", f"{thm} does not apply: the output of {names[kind]} on a corpus function "
+                            thm = {"lit": "lit_pass_correct", "rta": "rta_pass_correct", "ac": "ac_pass (exact model of the pass; value-level theorem only)"}[kind]
+                            ctx.violation("theorem-broken" if kind != "ac" else "correspondence-broken", f"{thm} does not apply: the output of {names[kind]} on a corpus function "
                                           f"({s_['name']}) is not the model's output", {"theorem": thm, "verdict": r, "function_before": s_["text_before"][:5000],
                                                                                         "function_after": s_["text_after"][:5000]})
                 total += st["accepted"]
